@@ -88,7 +88,10 @@ type script struct {
 	Gap int `json:"gap"`
 }
 
-func startUpstream() (string, func()) {
+func startUpstream() (string, func()) { return startUpstreamTagged("ok") }
+
+// startUpstreamTagged answers every request with the given content (so a client can tell which upstream served it).
+func startUpstreamTagged(tag string) (string, func()) {
 	ln := listenLocal()
 	go func() {
 		for {
@@ -117,7 +120,7 @@ func startUpstream() (string, func()) {
 						if os.Getenv("VH_TRACE") != "" {
 							fmt.Println("upstream writes response", id, time.Now().Format("05.000"))
 						}
-						resp := boltResponse(id, []byte("ok"))
+						resp := boltResponse(id, []byte(tag))
 						wmu.Lock()
 						defer wmu.Unlock()
 						if sc.Gap > 0 {
